@@ -91,6 +91,8 @@ type Ctx struct {
 	allGhosts   map[string]bool
 	usesBSeq    bool
 	usesObjKey  bool
+	usesErrWraps bool
+	ghostFired  map[*GhostStmt]bool
 	skippedAbs  map[int]int // loop ordinal -> obligations not generated because the loop is declared abstract
 	defs        map[string]string
 	paramTerms  []Value
